@@ -26,12 +26,26 @@ impl Submissions {
     where
         F: FnOnce(&mut Submission),
     {
-        let shared = &*self.shared;
-        let len = shared.submissions_len;
         // Before grabbing a lock, see if there is space in the queue.
-        if shared.unsubmitted_submissions() >= len {
+        if self.shared.unsubmitted_submissions() >= self.shared.submissions_len {
             return Err(QueueFull);
         }
+        self.add_locked(fill_submission)
+    }
+
+    /// Same as [`Submissions::add`], but without the check before grabbing the
+    /// lock.
+    ///
+    /// That check loads the head before the tail without holding the lock, so
+    /// it compares a tail with an older head: if the kernel consumes
+    /// submissions in between while other threads add new ones, it reports a
+    /// full queue that was never full. Callers that can't retry use this.
+    fn add_locked<F>(&self, fill_submission: F) -> Result<(), QueueFull>
+    where
+        F: FnOnce(&mut Submission),
+    {
+        let shared = &*self.shared;
+        let len = shared.submissions_len;
 
         // Grab the submission lock.
         let submissions_guard = lock(&shared.submissions_lock);
@@ -86,7 +100,9 @@ impl Submissions {
 
     /// Asynchronously cancel an operation.
     pub(super) fn cancel(&self, user_data: u64) -> Result<(), QueueFull> {
-        self.add(|submission| {
+        // NOTE: if this fails the operation is not cancelled and nothing
+        // retries it, so don't give up based on the unlocked check in `add`.
+        self.add_locked(|submission| {
             submission.0.opcode = libc::IORING_OP_ASYNC_CANCEL as u8;
             submission.0.__bindgen_anon_2 = libc::io_uring_sqe__bindgen_ty_2 { addr: user_data };
             submission.0.user_data = CANCEL_USER_DATA;
